@@ -262,3 +262,27 @@ Proof.
     assert (H3 : 0 < / rX) by (apply Rinv_0_lt_compat; lra).
     pose proof (Rabs_pos (rX - rc)). apply Rmult_le_compat; lra.
 Qed.
+
+(* ------------------------------------------------------------------ zero step, domain invariance, inverse *)
+Theorem kflow_zero M p : ell_dom M p -> kflow M 0 p = p.
+Proof.
+  intros D. pose proof D as (HM & Hr & Hb & Hh). fold (kbeta M p) in Hb.
+  destruct (Gd_pos (kbeta M p) 0 Hb) as (_ & E1 & E2 & E3).
+  rewrite Rmult_0_r, sin_0 in E1, E3. rewrite Rmult_0_r, cos_0 in E2.
+  assert (Z1 : G1d (kbeta M p) 0 = 0) by (rewrite E1; unfold Rdiv; ring).
+  assert (Z2 : G2d (kbeta M p) 0 = 0) by (rewrite E2; unfold Rdiv; ring).
+  assert (Z3 : G3d (kbeta M p) 0 = 0) by (rewrite E3; unfold Rdiv; ring).
+  rewrite <- (kflow_unique M 0 p 0 D).
+  - unfold kstep. cbv zeta. rewrite Z1, Z2, Z3.
+    destruct p as [[[[[x y] z] vx] vy] vz]. unfold fg_update, fg_coeffs, fg_apply.
+    cbn [nneg nmul nsub nadd RNum]. repeat (f_equal; try ring).
+  - unfold Fk. rewrite Z2, Z3. ring.
+Qed.
+
+Theorem kflow_dom M dt p : ell_dom M p -> ell_dom M (kflow M dt p).
+Proof. intros D. pose proof (kflow_facts M dt p D) as F. cbv zeta in F. tauto. Qed.
+
+Theorem kflow_inverse M dt p : ell_dom M p -> kflow M (- dt) (kflow M dt p) = p.
+Proof.
+  intros D. rewrite kflow_group by exact D. replace (dt + - dt) with 0 by ring. apply kflow_zero, D.
+Qed.
